@@ -59,7 +59,7 @@ func (f *Write) Call(s *slip.Scope, args slip.List, depth int) slip.Object {
 	if !ok || len(data) < 1 {
 		slip.TypePanic(s, depth, "data", args[0], "list")
 	}
-	w := s.Get("*standard-output*").(io.Writer)
+	w := s.WriterVar("*standard-output*", depth)
 	if 1 < len(args) {
 		switch ta := args[1].(type) {
 		case nil:
